@@ -41,13 +41,13 @@ theorem TermHead.ne {c : Char} {r : Str} (h : TermHead (c :: r)) (d : Char) (hd 
   | inl h => exact hb h
   | inr h => rw [hd] at h; cases h
 
-theorem termHead_escape (v rest : Str) (hne : v ≠ []) (hw : hasWs v = false) : TermHead (luceneEscape v ++ rest) := by
+theorem termHead_escape (v rest : Str) (hne : v ≠ []) (hw : hasBlank v = false) : TermHead (luceneEscape v ++ rest) := by
   cases v with
   | nil => exact absurd rfl hne
   | cons c v =>
     by_cases hs : isLuceneSpecial c = true
     · exact ⟨'\\', c :: (luceneEscape v ++ rest), by simp [luceneEscape, hs], Or.inl rfl⟩
-    · simp only [hasWs, List.any_cons, Bool.or_eq_false_iff] at hw
+    · simp only [hasBlank, List.any_cons, Bool.or_eq_false_iff] at hw
       exact ⟨c, luceneEscape v ++ rest, by simp [luceneEscape, hs],
         Or.inr (not_invalid_of_plain c hw.1 (by simpa using hs))⟩
 
@@ -188,7 +188,7 @@ theorem field_attr (a x : Str) (h : rawTermOK a = true) : field (a ++ ':' :: x) 
 theorem rawTerm_head (a : Str) (h : rawTermOK a = true) :
     ∃ c r, a = c :: r ∧ isInvalidStartChar c = false ∧ kwStart a = false := by
   simp only [rawTermOK, Bool.and_eq_true, Bool.not_eq_true'] at h
-  obtain ⟨⟨⟨hne, hu⟩, hch⟩, hk⟩ := h
+  obtain ⟨⟨hne, hch⟩, hk⟩ := h
   cases a with
   | nil => simp at hne
   | cons c r =>
@@ -197,7 +197,7 @@ theorem rawTerm_head (a : Str) (h : rawTermOK a = true) :
 
 theorem rawTerm_noBackslash (a : Str) (h : rawTermOK a = true) : ∀ c ∈ a, c ≠ '\\' := by
   simp only [rawTermOK, Bool.and_eq_true, Bool.not_eq_true'] at h
-  obtain ⟨⟨⟨hne, hu⟩, hch⟩, hk⟩ := h
+  obtain ⟨⟨hne, hch⟩, hk⟩ := h
   cases a with
   | nil => simp
   | cons c r =>
@@ -309,9 +309,9 @@ theorem termHead_front (s : Str) (h : TermHead s) (hn : startsWith ['N', 'O', 'T
   have n3 := h.ne '-' (by decide) (by decide)
   exact ⟨matchall_ne c r n1, hs, modifiers_none_of c r n2 n3 hn⟩
 
-theorem escTermOK_parts {v : Str} (h : escTermOK v = true) : v ≠ [] ∧ hasWs v = false ∧ hasU3000 v = false := by
+theorem escTermOK_parts {v : Str} (h : escTermOK v = true) : v ≠ [] ∧ hasBlank v = false ∧ True := by
   simp only [escTermOK, Bool.and_eq_true, Bool.not_eq_true'] at h
-  refine ⟨?_, h.1.2, h.2⟩
+  refine ⟨?_, h.2, trivial⟩
   intro e; subst e; simp at h
 
 /-- `value` on a printed term -/
@@ -326,18 +326,18 @@ theorem value_raw_term (a rest : Str) (h : rawTermOK a = true) (hr : ItemEnd res
     value (a ++ rest) = some (.term a, rest) := by
   have h' := h
   simp only [rawTermOK, Bool.and_eq_true, Bool.not_eq_true'] at h'
-  obtain ⟨⟨⟨hne, hu⟩, hch⟩, hk⟩ := h'
+  obtain ⟨⟨hne, hch⟩, hk⟩ := h'
   have hne' : a ≠ [] := by intro e; subst e; simp at hne
   exact value_term _ _ rest (termHead_raw a rest hch)
-    (termPrefix_none_of_scan _ _ rest (termScan_raw a rest hne' hch hu hr.termStop) hr.not_star)
+    (termPrefix_none_of_scan _ _ rest (termScan_raw a rest hne' hch hr.termStop) hr.not_star)
     (term_raw a rest h hr.termStop) hr.atTermEnd
 
 /-! ### `_exists_:a`, `_missing_:a` -/
 
 theorem rawTermOK_parts {a : Str} (h : rawTermOK a = true) :
-    a ≠ [] ∧ hasU3000 a = false ∧ rawTermChars a = true ∧ kwStart a = false := by
+    a ≠ [] ∧ True ∧ rawTermChars a = true ∧ kwStart a = false := by
   simp only [rawTermOK, Bool.and_eq_true, Bool.not_eq_true'] at h
-  refine ⟨?_, h.1.1.2, h.1.2, h.2⟩
+  refine ⟨?_, trivial, h.1.2, h.2⟩
   intro e; subst e; simp at h
 
 theorem existsField_ne_default : existsField ≠ defaultField := by decide +kernel
@@ -800,40 +800,34 @@ theorem skipWs_rv (p x : Str) (hne : p ≠ []) (hp : p.all rvChar = true) : skip
     simp only [List.all_cons, Bool.and_eq_true, rvChar, Bool.not_eq_true'] at hp
     exact skipWs_head c _ hp.1.1.1
 
-/-- the `range` rule on a printed range -/
-theorem range_printed (lsq : Bool) (v1 v2 rest : Str) (h1 : v1 ≠ []) (h1c : v1.all rvChar = true)
+/-- the `range` rule on a printed range; each bracket is of either kind -/
+theorem range_printed (lsq rsq : Bool) (v1 v2 rest : Str) (h1 : v1 ≠ []) (h1c : v1.all rvChar = true)
     (h2 : v2 ≠ []) (h2c : v2.all rvChar = true) :
-    range ((if lsq then '[' else '{') :: (v1 ++ (' ' :: 'T' :: 'O' :: ' ' :: (v2 ++ (if lsq then ']' else '}') :: rest)))) =
-      some (.range lsq v1 v2 lsq, rest) := by
-  cases lsq with
-  | true =>
-    simp only [if_true]
-    have e1 : skipWs (v1 ++ (' ' :: 'T' :: 'O' :: ' ' :: (v2 ++ ']' :: rest))) = v1 ++ (' ' :: 'T' :: 'O' :: ' ' :: (v2 ++ ']' :: rest)) :=
+    range ((if lsq then '[' else '{') :: (v1 ++ (' ' :: 'T' :: 'O' :: ' ' :: (v2 ++ (if rsq then ']' else '}') :: rest)))) =
+      some (.range lsq v1 v2 rsq, rest) := by
+  have key : ∀ (o cl : Char), ((o = '[' ∧ lsq = true) ∨ (o = '{' ∧ lsq = false)) →
+      ((cl = ']' ∧ rsq = true) ∨ (cl = '}' ∧ rsq = false)) →
+      range (o :: (v1 ++ (' ' :: 'T' :: 'O' :: ' ' :: (v2 ++ cl :: rest)))) = some (.range lsq v1 v2 rsq, rest) := by
+    intro o cl ho hc
+    have hstop2 : rvStop (cl :: rest) = true := by
+      rcases hc with ⟨rfl, _⟩ | ⟨rfl, _⟩ <;> rfl
+    have e1 : skipWs (v1 ++ (' ' :: 'T' :: 'O' :: ' ' :: (v2 ++ cl :: rest))) = v1 ++ (' ' :: 'T' :: 'O' :: ' ' :: (v2 ++ cl :: rest)) :=
       skipWs_rv v1 _ h1 h1c
-    have e2 : rangeValue (v1 ++ (' ' :: 'T' :: 'O' :: ' ' :: (v2 ++ ']' :: rest))) = some (v1, ' ' :: 'T' :: 'O' :: ' ' :: (v2 ++ ']' :: rest)) :=
+    have e2 : rangeValue (v1 ++ (' ' :: 'T' :: 'O' :: ' ' :: (v2 ++ cl :: rest))) = some (v1, ' ' :: 'T' :: 'O' :: ' ' :: (v2 ++ cl :: rest)) :=
       rangeValue_append v1 _ h1 h1c rfl
-    have e3 : stripPrefix ['T', 'O'] (skipWs (' ' :: 'T' :: 'O' :: ' ' :: (v2 ++ ']' :: rest))) = some (' ' :: (v2 ++ ']' :: rest)) := rfl
-    have e4 : skipWs (' ' :: (v2 ++ ']' :: rest)) = v2 ++ ']' :: rest := by
-      rw [show skipWs (' ' :: (v2 ++ ']' :: rest)) = skipWs (v2 ++ ']' :: rest) from rfl]
+    have e3 : stripPrefix ['T', 'O'] (skipWs (' ' :: 'T' :: 'O' :: ' ' :: (v2 ++ cl :: rest))) = some (' ' :: (v2 ++ cl :: rest)) := rfl
+    have e4 : skipWs (' ' :: (v2 ++ cl :: rest)) = v2 ++ cl :: rest := by
+      rw [show skipWs (' ' :: (v2 ++ cl :: rest)) = skipWs (v2 ++ cl :: rest) from rfl]
       exact skipWs_rv v2 _ h2 h2c
-    have e5 : rangeValue (v2 ++ ']' :: rest) = some (v2, ']' :: rest) := rangeValue_append v2 _ h2 h2c rfl
-    have e6 : skipWs (']' :: rest) = ']' :: rest := rfl
+    have e5 : rangeValue (v2 ++ cl :: rest) = some (v2, cl :: rest) := rangeValue_append v2 _ h2 h2c hstop2
+    have e6 : skipWs (cl :: rest) = cl :: rest := by
+      rcases hc with ⟨rfl, _⟩ | ⟨rfl, _⟩ <;> rfl
     unfold range
-    simp only [if_true, e1, e2, e3, e4, e5, e6]
-  | false =>
-    simp only [Bool.false_eq_true, if_false]
-    have e1 : skipWs (v1 ++ (' ' :: 'T' :: 'O' :: ' ' :: (v2 ++ '}' :: rest))) = v1 ++ (' ' :: 'T' :: 'O' :: ' ' :: (v2 ++ '}' :: rest)) :=
-      skipWs_rv v1 _ h1 h1c
-    have e2 : rangeValue (v1 ++ (' ' :: 'T' :: 'O' :: ' ' :: (v2 ++ '}' :: rest))) = some (v1, ' ' :: 'T' :: 'O' :: ' ' :: (v2 ++ '}' :: rest)) :=
-      rangeValue_append v1 _ h1 h1c rfl
-    have e3 : stripPrefix ['T', 'O'] (skipWs (' ' :: 'T' :: 'O' :: ' ' :: (v2 ++ '}' :: rest))) = some (' ' :: (v2 ++ '}' :: rest)) := rfl
-    have e4 : skipWs (' ' :: (v2 ++ '}' :: rest)) = v2 ++ '}' :: rest := by
-      rw [show skipWs (' ' :: (v2 ++ '}' :: rest)) = skipWs (v2 ++ '}' :: rest) from rfl]
-      exact skipWs_rv v2 _ h2 h2c
-    have e5 : rangeValue (v2 ++ '}' :: rest) = some (v2, '}' :: rest) := rangeValue_append v2 _ h2 h2c rfl
-    have e6 : skipWs ('}' :: rest) = '}' :: rest := rfl
-    unfold range
-    simp only [Char.reduceEq, if_false, if_true, e1, e2, e3, e4, e5, e6]
+    rcases ho with ⟨rfl, rfl⟩ | ⟨rfl, rfl⟩ <;> rcases hc with ⟨rfl, rfl⟩ | ⟨rfl, rfl⟩ <;>
+      simp only [Char.reduceEq, if_false, if_true, e1, e2, e3, e4, e5, e6]
+  apply key
+  · cases lsq <;> simp
+  · cases rsq <;> simp
 
 /-- text starting with a range bracket: only the `range` alternative applies -/
 theorem range_front (lsq : Bool) (x : Str) :
@@ -844,28 +838,27 @@ theorem range_front (lsq : Bool) (x : Str) :
 
 theorem leafGood_range (F : FloatLib) (a : Str) (lo : CV) (li : Bool) (hi : CV) (ui : Bool)
     (h : NFLeaf F (.range a lo li hi ui) = true) : LeafGood F (.range a lo li hi ui) := by
-  simp only [NFLeaf, Bool.and_eq_true, beq_iff_eq] at h
-  obtain ⟨⟨⟨ha, hlu⟩, hlo⟩, hhi⟩ := h
-  subst hlu
+  simp only [NFLeaf, Bool.and_eq_true] at h
+  obtain ⟨⟨ha, hlo⟩, hhi⟩ := h
   obtain ⟨l1, l2, l3⟩ := rangeBound_parts F lo (rangeValueOK_bound F lo hlo)
   obtain ⟨u1, u2, u3⟩ := rangeBound_parts F hi (rangeValueOK_bound F hi hhi)
   let body : Str := (if li then '[' else '{') ::
-    (lo.toLucene F ++ (' ' :: 'T' :: 'O' :: ' ' :: (hi.toLucene F ++ [if li then ']' else '}'])))
+    (lo.toLucene F ++ (' ' :: 'T' :: 'O' :: ' ' :: (hi.toLucene F ++ [if ui then ']' else '}'])))
   have hbody : ∀ x, body ++ x = (if li then '[' else '{') ::
-      (lo.toLucene F ++ (' ' :: 'T' :: 'O' :: ' ' :: (hi.toLucene F ++ (if li then ']' else '}') :: x))) := by
+      (lo.toLucene F ++ (' ' :: 'T' :: 'O' :: ' ' :: (hi.toLucene F ++ (if ui then ']' else '}') :: x))) := by
     intro x; simp [body]
-  have hL : (Leaf.range a lo li hi li).toLucene F = attrPrefix a ++ body := by
+  have hL : (Leaf.range a lo li hi ui).toLucene F = attrPrefix a ++ body := by
     show attrPrefix a ++ [if li then '[' else '{'] ++ lo.toLucene F ++ " TO ".toList ++ hi.toLucene F ++
-      [if li then ']' else '}'] = _
+      [if ui then ']' else '}'] = _
     rw [toSep]
     simp [body]
-  refine leafGood_attr F _ a body (.range li (lo.toLucene F) (hi.toLucene F) li) hL ha ?_ ?_ (by simp [body]) ?_ ?_ ?_
+  refine leafGood_attr F _ a body (.range li (lo.toLucene F) (hi.toLucene F) ui) hL ha ?_ ?_ (by simp [body]) ?_ ?_ ?_
   · intro rest _
     rw [hbody]
-    have hf := range_front li (lo.toLucene F ++ (' ' :: 'T' :: 'O' :: ' ' :: (hi.toLucene F ++ (if li then ']' else '}') :: rest)))
+    have hf := range_front li (lo.toLucene F ++ (' ' :: 'T' :: 'O' :: ' ' :: (hi.toLucene F ++ (if ui then ']' else '}') :: rest)))
     simp only at hf
     obtain ⟨f1, f2, f3, f4, _⟩ := hf
-    simp only [value, f1, f2, f3, f4, alt_none, range_printed li _ _ rest l1 l2 u1 u2, alt_some]
+    simp only [value, f1, f2, f3, f4, alt_none, range_printed li ui _ _ rest l1 l2 u1 u2, alt_some]
   · intro x; rw [hbody]; exact (range_front li _).2.2.2.2.2.2.2.2
   · intro _ rest _; rw [hbody]
     exact ⟨(range_front li _).2.2.2.2.1, (range_front li _).2.2.2.2.2.1, (range_front li _).2.2.2.2.2.2.1⟩
